@@ -1167,7 +1167,42 @@ func (f *Frugal) validateTypedefs() error {
 				typedef.Name, typedef.Type.Name)
 		}
 	}
+
+	// A typedef must not be defined in terms of itself. Includes have been
+	// validated already and cannot refer back to this file, so only the
+	// typedefs of this file matter: repeatedly mark the typedefs which are
+	// defined in terms of marked typedefs only; what stays unmarked is part of
+	// a cycle or depends on one.
+	resolved := make(map[string]bool)
+	for progress := true; progress; {
+		progress = false
+		for _, typedef := range f.Typedefs {
+			if !resolved[typedef.Name] && f.typedefsResolved(f.typedefIndex[typedef.Name].Type, resolved) {
+				resolved[typedef.Name] = true
+				progress = true
+			}
+		}
+	}
+	for _, typedef := range f.Typedefs {
+		if !resolved[typedef.Name] {
+			return fmt.Errorf("Circular typedef %s", typedef.Name)
+		}
+	}
 	return nil
+}
+
+// typedefsResolved indicates if every typedef of this file the given type is
+// made of is marked as resolved.
+func (f *Frugal) typedefsResolved(t *Type, resolved map[string]bool) bool {
+	if t == nil {
+		return true
+	}
+	// Anything but a typedef of this file (a base type, a struct, a name from
+	// an include, ...) ends the chain.
+	if _, ok := f.typedefIndex[t.Name]; ok && !resolved[t.Name] {
+		return false
+	}
+	return f.typedefsResolved(t.KeyType, resolved) && f.typedefsResolved(t.ValueType, resolved)
 }
 
 func (f *Frugal) validateStructs() error {
